@@ -451,7 +451,8 @@ def check_property(prop, tier="quick", seed=0, jobs=None, only=None, write_evide
             rc = EXIT_CRASH
     wall = time.time() - t_start
     n_known_clauses = len(known_hits)
-    if write_evidence and not only:
+    if write_evidence and not only and os.environ.get("GTV_REPO", "/repo").rstrip("/") == "/repo":
+        # (evidence is only ever written from runs against /repo itself, never from a scratch copy)
         from . import extract as X
         ev = dict(
             property_id=prop, tier=tier, seed=int(seed), level="proof",
